@@ -28,16 +28,19 @@ WITNESS = [
     (r"movegen::Bitboard::(make_move|make_castle_move)", "board", "inkayaku_board", "c03_make_unmake.rs", "witness_"),
     (r"movegen::", "board", "inkayaku_board", "c01_legal_moves.rs", "witness_c01"),
     (r"uci_moves::Bitboard::(is_move_legal|is_any_move_legal)", "board", "inkayaku_board", "c13_rejected_move.rs", "witness_is_move_legal"),
+    (r"uci_moves::Move::", "board", "inkayaku_board", "c03_make_unmake.rs", "witness_"),
+    (r"::Bitboard::ply_clock", "engine_core", "inkayaku_engine_core", "c10_repetition.rs", "witness_c10"),
     (r"history::", "engine_core", "inkayaku_engine_core", "c10_repetition.rs", "witness_c10"),
     (r"san_suffix_fragment", "board", "inkayaku_board", "c05_check_detection.rs", "witness_c05_san"),
     (r"uci_to_pgn", "board", "inkayaku_board", "c13_rejected_move.rs", "witness_uci_to_pgn"),
     (r"search_abort::", "engine_core", "inkayaku_engine_core", "c09_interrupted_search.rs", "witness_c09"),
     (r"SearchSlice::", "engine_core", "inkayaku_engine_core", "c09_interrupted_search.rs", "witness_c09"),
     (r"attacks::Bitboard::", "board", "inkayaku_board", "c05_check_detection.rs", "witness_c05"),
-    (r"hashtable::HashTable::", "append:engine_core/src/engine/table.rs", "inkayaku_engine_core", "c18_fifo_map.rs", "verif_witness_c18"),
+    (r"hashtable::", "append:engine_core/src/engine/table.rs", "inkayaku_engine_core", "c18_fifo_map.rs", "verif_witness_c18"),
     (r"search_hash::", "append:engine_core/src/engine/search.rs", "inkayaku_engine_core", "c06_search_threading.rs", "verif_witness_c06"),
     (r"hashes::", "board", "inkayaku_board", "c06_hashes.rs", "witness_c06"),
     (r"eval::", "append:engine_core/src/engine/heuristic/simple.rs", "inkayaku_engine_core", "c11_symmetry.rs", "verif_witness_c11"),
+    (r"heuristic::(SearchFragE::|calculate_heuristic_factor)", "append:engine_core/src/engine/search.rs", "inkayaku_engine_core", "c11_search_view.rs", "verif_witness_c11_search"),
     (r"heuristic::Heuristic::(score_from_value|is_checkmate)", "append:engine_core/src/engine/heuristic/simple.rs", "inkayaku_engine_core", "c11_symmetry.rs", "verif_witness_c11_mate"),
     (r"search_rep::", "engine_core", "inkayaku_engine_core", "c10_repetition.rs", "witness_c10"),
     (r"lemma_shipped_thresholds|Heuristic::evaluate", "append:engine_core/src/engine/heuristic/simple.rs", "inkayaku_engine_core", "c10_fifty_move.rs", "verif_witness_c10"),
